@@ -75,6 +75,11 @@ def check_c14(ctx):
     g = ctx.gen_cases("MC_TemporalGen", "MC_TemporalGen_join_sim.cfg", jn, simulate=dict(num=3000 if quick else 40000, depth=9), idprefix="tj-")
     ctx.notes["generators"]["join_programs"] = g["cases"]
     run_cases(ctx, jn, "join", 1 if quick else 3)
+    # let-transforms on temporal rules (computed head column; head annotation none / now / constant / variables; feeding an operator)
+    lt = os.path.join(ctx.work, "t_let.ndjson")
+    g = ctx.gen_cases("MC_TemporalGen", "MC_TemporalGen_let_sim.cfg", lt, simulate=dict(num=1500 if quick else 20000, depth=7), idprefix="tl-")
+    ctx.notes["generators"]["let_programs"] = g["cases"]
+    run_cases(ctx, lt, "let", 1 if quick else 3)
     for r in list(res2.values())[:3]:
         ctx.add_sample(dict(program=r["text"], now=r["now"], facts=[evalfam.fact_str(a) for a in r["variants"][0]["got"]],
                             temporal=[(evalfam.fact_str(x[0]), x[1]) for x in r["variants"][0]["tgot"]]))
@@ -84,7 +89,7 @@ def check_c14(ctx):
                         "constant annotations in rule bodies have no documented meaning and are not generated; an annotation variable that already has a value is read as an equality with the stored bound (unification)"]
     return ctx.finish("model_checking",
                       "temporal programs generated by TLC (TemporalGen): base facts on a 0..5 timeline, evaluation times 0..5, windows 0<=a<=b<=3 incl. zero-length and end-touching, the four operators, interval variable binding, "
-                      "the @[T] point shorthand, head annotations (variables, now, constants), two-rule chains and two-literal joins on interval variables; regular and temporal store after EvalProgram compared with TemporalSem!TModel by TLC; "
+                      "the @[T] point shorthand, head annotations (variables, now, constants), two-rule chains, two-literal joins on interval variables and let-transforms on temporal rules; regular and temporal store after EvalProgram compared with TemporalSem!TModel by TLC; "
                       "non-trivial = derives at least one fact; distinct by (program text, evaluation time)")
 
 
